@@ -238,7 +238,7 @@ func (x *Exec) libModel(fr *Frame, st *State, ins ssa.Instruction, callee *ssa.F
 		set(ite(okT, app(SString, "strfn_unquote", args[0]), strLit("")), ite(okT, Term{"(mk-iface 0 0)", SIface}, e))
 		return true
 	case "sort.Strings":
-		x.sortStrings(fr, st, args[0], ins)
+		x.sortPerm(fr, st, args[0], stringT, ins, nil, nil)
 		x.lib(full)
 		return true
 	case "sort.Sort", "sort.Stable":
@@ -568,6 +568,11 @@ func (x *Exec) sortPerm(fr *Frame, st *State, s Term, et types.Type, ins ssa.Ins
 	x.setHeap(st, h, store(x.heap(st, h), sArr(s), na))
 	if !isFreshRefTerm(sArr(s)) {
 		st.markDirty(h.name)
+	}
+	if lessFn == nil && lessClo == nil {
+		// sort.Strings: byte-wise order of the strings themselves
+		vc.assert(Term{fmt.Sprintf("(forall ((i Int) (j Int)) (! (=> (and (<= 0 i) (<= i j) (< j %[1]s)) (str.<= (select %[2]s i) (select %[2]s j))) :pattern ((select %[2]s i) (select %[2]s j))))", ln.S, na.S), SBool})
+		return
 	}
 	// ordering: forall i < j in range: !less(j, i)
 	func() {
